@@ -49,6 +49,12 @@ class Multi:
     def strval(self, f, e):
         return self.gm.strval(f, e)
 
+    def __getattr__(self, name):
+        # everything else GenModel offers over (facts, cfg, defs)
+        if name in ('gm', 'facts', '_cfg', '_defs'):
+            raise AttributeError(name)
+        return getattr(self.gm, name)
+
 
 def c02(rep, tier):
     # ------------------------------------------------------------------ a: null-safety
@@ -151,9 +157,11 @@ def c02(rep, tier):
                     continue
                 # every call site sits in a non-EOF case of switch(lookahead(es)) - directly, or the calling helper is itself only
                 # called from such cases and does not move the cursor before the call
-                def sites_non_eof(fq, depth=0):
+                def sites_non_eof(fq, depth=0, direct=None):
                     cs_ = [(g2, c2) for g2 in lib.functions_in('macro.cpp') for c2 in walk_all_exprs(g2['body'])
                            if c2.get('k') == 'call' and c2.get('callee') == fq]
+                    if direct is not None:
+                        cs_ = [direct]
                     if not cs_:
                         return False, 0
                     total = 0
@@ -183,6 +191,15 @@ def c02(rep, tier):
                             return False, total
                         total += 1
                     return True, total
+                # the subscript may itself sit in a non-EOF case (the helper inlined into the grammar function)
+                gd = M.cfg(f)
+                here = any(is_call(strip_casts(cond), 'lookahead') and isinstance(label, tuple) and label[0] == 'case'
+                           for cond, label, cn in gd.guards_of(gd.ev(e)))
+                if here:
+                    okc, ncs = sites_non_eof(f['q'], 2, direct=(f, e))
+                    B.check(okc, inst, 'in a non-EOF case of switch(lookahead(es)) with no advance in between',
+                            'tokens[tok_pos] may be evaluated at end of input', where)
+                    continue
                 okc, ncs = sites_non_eof(f['q'])
                 cs = [None] * ncs
                 B.check(okc, inst, 'all %d call sites are in non-EOF cases of switch(lookahead(es)) with no advance in between' % len(cs),
